@@ -554,5 +554,5 @@ func Run(c *engine.Ctx) {
 			engine.Fatal("vacuous harness: operation %q never failed", must)
 		}
 	}
-	c.Cov["rule"] = "every operation sequence up to depth 2 (3 thorough) after a login over the 13-operation alphabet x 5 configurations (password / keytab, pre-authentication none / required / assumed, rc4 only, renewable) with every surface scanned after every step; every reply perturbation of the C09 catalogue (40) on the AS and on the TGS exchange x 3 configurations; every truncation and 7-8 single-byte corruptions per offset of keytabs (v1, v2) and a ccache holding marker keys; every defect of the C01 catalogue x 6 etypes presented to the service with a logger; Marshal after decrypt of 8 message kinds x 6 etypes (incl. KDC request bodies and ticket sequences holding a ticket decrypted before). distinct = (configuration, last operation) / defect / message classes"
+	c.Cov["rule"] = "every operation sequence up to depth 2 (3 thorough) after a login over the 15-operation alphabet x 5 configurations (password / keytab, pre-authentication none / required / assumed, rc4 only, renewable) with every surface scanned after every step; every reply perturbation of the C09 catalogue (40) on the AS and on the TGS exchange x 3 configurations; every truncation and 7-8 single-byte corruptions per offset of keytabs (v1, v2) and a ccache holding marker keys; every defect of the C01 catalogue x 6 etypes presented to the service with a logger; Marshal after decrypt of 8 message kinds x 6 etypes (incl. KDC request bodies and ticket sequences holding a ticket decrypted before). distinct = (configuration, last operation) / defect / message classes"
 }
